@@ -448,6 +448,51 @@ func runExt4Case(prop string, c core.Case, env *core.Env) core.Result {
 			drv.CloseAll()
 			reopenCmp()
 		}
+	case "dirgrow":
+		// two directories grow block by block while file data is allocated right behind their last block, so
+		// that the directories end up in many separate extents (more than the four an inode holds); then
+		// entries are removed and added again
+		drv.Light = true
+		nm := func(d string, i int) string {
+			return fmt.Sprintf("%s/%03d_%s", d, i, strings.Repeat(string(rune('a'+i%26)), 150+(i*37)%90))
+		}
+		for _, d := range []string{"grow1", "grow2"} {
+			if !step(fsdrive.Op{Kind: "mkdir", Path: d}) {
+				return res
+			}
+		}
+		n := ec.Steps
+		if n == 0 {
+			n = 60
+		}
+		for i := 0; i < n; i++ {
+			if !step(fsdrive.Op{Kind: "write", Path: nm("grow1", i), Len: bs, DSeed: uint64(i + 1)}) {
+				return res
+			}
+			if i%3 == 0 {
+				if !step(fsdrive.Op{Kind: "write", Path: nm("grow2", i), Len: 2*bs + 1, DSeed: uint64(5000 + i)}) {
+					return res
+				}
+			}
+		}
+		for i := 0; i < n; i += 2 {
+			if !step(fsdrive.Op{Kind: "remove", Path: nm("grow1", i)}) {
+				return res
+			}
+		}
+		for i := n; i < n+n/3; i++ {
+			if !step(fsdrive.Op{Kind: "write", Path: nm("grow1", i), Len: bs / 2, DSeed: uint64(i + 1)}) {
+				return res
+			}
+		}
+		res.Mark("directories grown block by block between other allocations")
+		if !drv.Diverged {
+			drv.Light = false
+			if prop == "C04" {
+				drv.Compare(fs, "live", nil)
+			}
+			reopenCmp()
+		}
 	case "fill":
 		// fill to no-space with files, then remove half, refill: refused calls must leave a clean image
 		drv.Light = true
